@@ -235,6 +235,9 @@ impl MinOutputAdaCalculator {
     #[verifier::external_body] pub fn set_amount(&mut self, amount: &Value) ensures *final(self) == (MinOutputAdaCalculator { output: TransactionOutput { amount: *amount, ..old(self).output }, ..*old(self) }) { unimplemented!() }
     #[verifier::external_body] pub fn calculate_ada(&self) -> (r: Result<BigNum, JsError>) ensures r is Ok ==> r->Ok_0.0 == spec_min_ada(self.output, self.data_cost) { unimplemented!() }
 }
+pub open spec fn return_within_max_value_size(b: TransactionBuilder) -> bool {
+    b.collateral_return is Some ==> value_size(b.collateral_return->Some_0.amount) <= b.config.max_value_size
+}
 pub open spec fn return_meets_min_ada(b: TransactionBuilder) -> bool {
     b.collateral_return is Some ==> b.collateral_return->Some_0.amount.coin.0 >= spec_min_ada(b.collateral_return->Some_0, b.config.data_cost)
 }
